@@ -126,9 +126,12 @@ class Run:
         """Report a violation identified by `key` (canonical identity of the failing input)."""
         k = self._known_match(key)
         if k is not None:
-            if key not in self.known_hits:
-                self.known_hits[key] = k.get("what", what)
-                print(f"KNOWN-FINDING: property={self.pid} {k.get('what', what)} [key={key}]", flush=True)
+            kid = k.get("key", key)
+            self.known_instances = getattr(self, "known_instances", 0) + 1
+            if kid not in self.known_hits:
+                # one line per listed finding (a glob entry = one root cause with many instances)
+                self.known_hits[kid] = k.get("what", what)
+                print(f"KNOWN-FINDING: property={self.pid} {k.get('what', what)} [key={kid}; first instance: {key}]", flush=True)
             return
         if key in self.violations:
             return
